@@ -197,14 +197,19 @@ class GradientMethod(Alg):
             if self.proxg is not None:
                 backend.copyto(self.x, self.proxg(self.alpha, self.x))
 
+            resid = xp.linalg.norm(self.x - x_old).item()
             if self.accelerate:
                 t_old = self.t
                 self.t = (1 + (1 + 4 * t_old**2) ** 0.5) / 2
+                # The step was taken from z: x is a fixed point only if it
+                # also coincides with the point it was computed from.
+                resid_z = xp.linalg.norm(self.x - self.z).item()
+                resid = (resid**2 + resid_z**2) ** 0.5
                 backend.copyto(
                     self.z, self.x + ((t_old - 1) / self.t) * (self.x - x_old)
                 )
 
-            self.resid = xp.linalg.norm(self.x - x_old).item() / self.alpha
+            self.resid = resid / self.alpha
 
     def _done(self):
         return (self.iter >= self.max_iter) or self.resid <= self.tol
